@@ -47,6 +47,26 @@ type verifC3xS3 struct {
 	getReadErr  bool   // the body ends with a read error instead of EOF
 	putKeys     []string
 	deleted     []string
+	onEOF       func(key string) // called (outside the lock) by a GetObject body right before it reports EOF: a schedule gate
+}
+
+// verifC3xGateReader delivers the data, then calls hook once before reporting EOF.
+type verifC3xGateReader struct {
+	r    io.Reader
+	hook func()
+	done bool
+}
+
+func (g *verifC3xGateReader) Read(p []byte) (int, error) {
+	n, err := g.r.Read(p)
+	if err == io.EOF && !g.done {
+		if n > 0 {
+			return n, nil // hand the last bytes over first; EOF (after the gate) on the next call
+		}
+		g.done = true
+		g.hook()
+	}
+	return n, err
 }
 
 func verifC3xNewS3() *verifC3xS3 {
@@ -173,6 +193,10 @@ func (f *verifC3xS3) GetObject(ctx context.Context, in *s3.GetObjectInput, _ ...
 	var r io.Reader = bytes.NewReader(append([]byte(nil), data...))
 	if f.getReadErr {
 		r = &verifC3xErrReader{r: r, err: errors.New("verif: connection reset")}
+	}
+	if hook := f.onEOF; hook != nil {
+		key := aws.ToString(in.Key)
+		r = &verifC3xGateReader{r: r, hook: func() { hook(key) }}
 	}
 	return &s3.GetObjectOutput{Body: io.NopCloser(r), ContentLength: aws.Int64(int64(len(data)))}, nil
 }
